@@ -503,6 +503,9 @@ impl Vm {
         }
         }
 
+        #[cfg(feature = "verif")]
+        self.verif_observe(crate::vm::verif::GcPhase::Before);
+
         self.globenv
             .iter_bindings()
             .for_each(|it| self.heap.mark(*it));
@@ -519,6 +522,9 @@ impl Vm {
         self.heap.mark(self.ip.0);
         self.heap.mark(self.ep);
         self.heap.sweep();
+
+        #[cfg(feature = "verif")]
+        self.verif_observe(crate::vm::verif::GcPhase::After);
 
         // If after GC the heap utilization is still high, grow the heap.
         if (self.heap.used_size() as f64 / self.heap.capacity() as f64) > 0.75_f64 {
